@@ -160,7 +160,7 @@ func (in *Instance) Age() time.Duration { return time.Since(in.Started) }
 
 // Connect opens a new client connection to the instance's bus.
 func (in *Instance) Connect() (*nats.Conn, error) {
-	opts := []nats.Option{nats.Timeout(10 * time.Second)}
+	opts := []nats.Option{nats.Timeout(10 * time.Second), nats.NoReconnect()}
 	if in.Opts.AuthToken != "" {
 		opts = append(opts, nats.Token(in.Opts.AuthToken))
 	}
